@@ -2,7 +2,7 @@
 From Coq Require Import ZArith Reals List Lia Lra.
 From Flocq Require Import Core BinarySingleNaN.
 From GCL Require Proofs.TablesOk.
-From GCL Require Import Base.F64 Base.F64Facts Model.Measure Model.Limits Proofs.VegasSafe Proofs.AimdProofs.
+From GCL Require Import Base.F64 Base.F64Facts Model.Measure Model.Limits Proofs.VegasSafe Proofs.AimdProofs Proofs.GradSafe.
 Import ListNotations.
 
 (* AIMD: for every sample list the limit stays >= 1 and <= initial + (#samples) * increase
@@ -21,6 +21,14 @@ Theorem C04_vegas_safe v M samples :
   exists v', vegas_run v samples = Some v' /\ VInv v' M /\ (1 <= vegas_est v' <= M)%Z.
 Proof. exact (vegas_run_safe v M samples). Qed.
 Print Assumptions C04_vegas_safe.
+
+(* Gradient: for every sample list with 0 <= rtt <= 2^62 (zero RTTs included), 0 <= inflight < 2^31, any drop flags and ANY probe
+   countdown draws: no step panics (the square-root table index stays in range), the stored estimate is finite within [min, Mx]
+   (Mx >= max(maxLimit, initial), Mx >= 4 = the smallest queue allowance), the baseline is finite; smoothing in [0,1], tolerance in [0, 2^30]. *)
+Theorem C04_gradient_safe g Mx samples : GInv g Mx -> Forall gsample_ok samples ->
+  exists g', grad_run g samples = Some g' /\ GInv g' Mx /\ (g_min g' <= grad_est g' <= Mx)%Z.
+Proof. exact (grad_run_safe g Mx samples). Qed.
+Print Assumptions C04_gradient_safe.
 
 (* non-vacuity: the state built by NewDefaultVegasLimit (initial 20, max 1000, smoothing 1.0) satisfies the invariant *)
 Example C04_vegas_default_ok jit : VInv (vegas_init (-1) (-1) (-1) (of_int (-1)) jit) 1000.
